@@ -132,6 +132,16 @@ func (w *World) doSetKeys(in Intent) {
 		key, signKey = k0, k0
 		extAddr = eip55(ext.KeyAddr(k0))
 		orch = hub.NewAccount(fmt.Sprintf("orch-%s-b%d", label, in.Pick))
+	case "orch_other_val": // fresh key; the orchestrator is the operator account of ANOTHER validator
+		l2 := fmt.Sprintf("%s-ov%d", label, in.Pick)
+		key = ext.DetEthKey(l2)
+		signKey = key
+		extAddr = eip55(ext.KeyAddr(key))
+		o := w.val(in.Pick)
+		if o.Oper.Addr.Equals(oper.Addr) {
+			return
+		}
+		orch = o.Oper
 	case "share_orch", "self_orch": // fresh key; the orchestrator is the one this validator uses on ANOTHER chain / its own operator account
 		if in.V >= 100 {
 			return
